@@ -3,8 +3,7 @@ import Dashu.Model.Text.Parse
   C07 — model of the byte and chunk encodings of `integer/src/convert.rs`
   (`words_to_le_bytes`, `to_le_bytes`, `to_signed_le_bytes`, `from_le_bytes`, `from_signed_le_bytes`,
   `from_le_bytes_large`, `words_to_chunks`, `to_chunks`, `from_chunks`), on word lists, as the
-  code is — including the two defects recorded for this property (sign byte lost for negative
-  `2^(8k)` on the heap path; word-aligned `to_chunks` slicing past the end).  Core Lean only.
+  code is (after the `fix:` commits dcc404d, 49f0136, 1bc13a7).  Core Lean only.
 
   The big-endian functions are the mirror image of the little-endian ones in the code
   (`to_be_bytes` ↔ reversed output, `rchunks_exact`/`from_be_bytes` ↔ `chunks_exact`/`from_le_bytes`
@@ -50,17 +49,19 @@ def toSignedLeBytes (W n : Nat) (negate : Bool) : List Nat :=
         if small then
           let skip := lzWord (2 * W) n / 8
           (wordLeBytes (2 * W) ((notWord (2 * W) n + 1) % 2 ^ (2 * W))).take (2 * W / 8 - skip)
-        else wordsToLeBytes W true (subOne W (wordsOf W n)).1
+        else
+          -- heap path: flip `magnitude - 1`, then `bytes.resize(len, 0xff)` to the byte length of
+          -- the magnitude itself
+          let words := wordsOf W n
+          let b := wordsToLeBytes W true (subOne W words).1
+          let len := words.length * (W / 8) - lzWord W (words.getLastD 0) / 8
+          b.take len ++ List.replicate (len - b.length) 255
       else toLeBytes W n
     let lz := if small then lzWord (2 * W) n else lzWord W ((wordsOf W n).getLastD 0)
     if lz % 8 = 0 then bytes ++ [if negate then 255 else 0] else bytes
 
 /-- `IBig::to_le_bytes` -/
 def ibigToLeBytes (W : Nat) (z : Int) : List Nat := toSignedLeBytes W z.natAbs (z < 0)
-
-/-- the input class of the sign-byte defect: negative, heap representation, magnitude `2^(8k)` -/
-def signByteDefect (W : Nat) (z : Int) : Bool :=
-  z < 0 && 2 ^ (2 * W) ≤ z.natAbs && 2 ^ (Nat.log2 z.natAbs) == z.natAbs && Nat.log2 z.natAbs % 8 == 0
 
 /-- `word_from_le_bytes_partial::<ONE_PAD>` / `Word::from_le_bytes` -/
 def wordFromLePartial (nbytes : Nat) (onePad : Bool) (bs : List Nat) : Nat :=
@@ -98,15 +99,14 @@ def fromSignedBeBytes (W : Nat) (bytes : List Nat) : Int := fromSignedLeBytes W 
 
 inductive ChunkPanic where
   | chunkBitsZero                 -- documented: "Panics if chunk_bits is zero"
-  | sliceIndex (endPos len : Nat)  -- `words[start_pos..end_pos]` out of range (convert.rs:94)
   deriving Repr, DecidableEq
 
-/-- one chunk of the word-aligned shortcut of `words_to_chunks` -/
-def alignedChunk (W : Nat) (words : List Nat) (wpc i : Nat) : Except ChunkPanic Nat :=
+/-- one chunk of the word-aligned shortcut of `words_to_chunks`
+    (`end_pos = (start_pos + words_per_chunk).min(words.len())`) -/
+def alignedChunk (W : Nat) (words : List Nat) (wpc i : Nat) : Nat :=
   let startPos := i * wpc
-  let endPos := startPos + wpc
-  if endPos > words.length then .error (.sliceIndex endPos words.length)
-  else .ok (val W ((words.drop startPos).take wpc))
+  let endPos := min (startPos + wpc) words.length
+  val W ((words.drop startPos).take (endPos - startPos))
 
 /-- one chunk of the general path of `words_to_chunks`: copy the words that contain the bit range,
     mask the top one, shift right by `start % W` -/
@@ -123,7 +123,7 @@ def unalignedChunk (W : Nat) (words : List Nat) (bitLenN k i : Nat) : Nat :=
     else (words.drop startPos).take (endPos - startPos)
   val W copied / 2 ^ (start % W)
 
-/-- `TypedReprRef::to_chunks(chunk_bits)` — as the code is -/
+/-- `TypedReprRef::to_chunks(chunk_bits)` -/
 def toChunks (W n k : Nat) : Except ChunkPanic (List Nat) :=
   if k = 0 then .error .chunkBitsZero
   else
@@ -134,16 +134,12 @@ def toChunks (W n k : Nat) : Except ChunkPanic (List Nat) :=
       else .ok ((List.range count).map (fun i => (n >>> (i * k)) % 2 ^ k))
     else
       let words := wordsOf W n
-      if k % W = 0 then (List.range count).mapM (alignedChunk W words (k / W))
+      if k % W = 0 then .ok ((List.range count).map (alignedChunk W words (k / W)))
       else .ok ((List.range count).map (unalignedChunk W words (bitLen n) k))
 
-/-- the input class of the `to_chunks` defect: heap value, word-aligned chunk size, word count
-    not a multiple of the words per chunk -/
-def chunkDefect (W n k : Nat) : Bool :=
-  2 ^ (2 * W) ≤ n && k != 0 && k % W == 0 && wordLen W n % (k / W) != 0
-
-/-- `Repr::from_chunks` / `chunks_to_words`: shift and add (value level).  The code does not
-    reject `chunk_bits = 0` (documented to panic). -/
-def fromChunks (k : Nat) (chunks : List Nat) : Nat := ofChunksSpec k chunks
+/-- `Repr::from_chunks` / `chunks_to_words`: `assert!(chunk_bits > 0)`, then shift and add
+    (value level) -/
+def fromChunks (k : Nat) (chunks : List Nat) : Except ChunkPanic Nat :=
+  if k = 0 then .error .chunkBitsZero else .ok (ofChunksSpec k chunks)
 
 end Dashu.Model.Text
